@@ -4,7 +4,7 @@ import vlib
 
 PROP_MODULES = ["Vlsp.Props.C16"]
 RULE = ("URIs = directory prefixes (POSIX/Windows separators, significant names in non-final positions, "
-        "look-alike prefixes/suffixes, case variants, query/fragment suffixes) x file names x extensions, "
+        "look-alike prefixes/suffixes, case variants, query/fragment suffixes; every pair of such prefixes one after the other) x file names x extensions, "
         "full product; non-trivial = the URI contains at least one significant name; distinct by URI")
 ASSUMPTIONS = ["detect tables are regenerated from src/parser/types.rs by pattern matching (tools/extract.py)",
                "str::contains/ends_with/match_indices modelled on List Char (Text.lean)"]
@@ -33,6 +33,16 @@ def uris(ctx):
     for p in prefixes:
         for f in files:
             out.append(p + f)
+    # one significant directory AFTER another (a look-alike first, the real one later, and the other way round): "occurs somewhere
+    # at a component boundary" is about EVERY occurrence, not the first one
+    gh = [q for q in prefixes if "github" in q.lower()]
+    for p1 in prefixes:
+        for p2 in gh:
+            tail = p2[len("file:///"):] if p2.startswith("file:///") else p2
+            tail = tail[2:] if tail.startswith("p/") or tail.startswith("p\\") else tail
+            for f in ["ci.yml", "ci.yaml", "action.yml", "package.json", "readme.md"]:
+                out.append(p1 + "proj/" + tail + f)
+                out.append(p1 + tail + f)
     # random compositions
     comps = [".github", "workflows", "actions", "x.github", "src", "a", "", ".github.bak", "Workflows"] + NAMES
     seps = ["/", "\\"]
